@@ -46,6 +46,8 @@ structure Spec where
 structure St where
   m : Pase.St := {}
   devPw : Nat := 0
+  /-- a handshake message is mutated in flight: the case is judged by the oracle only -/
+  tamper : Bool := false
   /-- number of windows opened so far: every window draws a fresh salt, so its verifier (the
   model's passcode class) is (passcode, window instance) -/
   opens : Nat := 0
@@ -104,7 +106,7 @@ def specExpire (sp : Spec) (now : Nat) : Spec :=
 def step (st : St) (line : String) : St × String :=
   let (op, out) := splitArrow line
   match words op with
-  | "case" :: _ :: rest => ({ devPw := (kvOf rest).num "pw" }, "case")
+  | "case" :: _ :: rest => ({ devPw := (kvOf rest).num "pw", tamper := ((kvOf rest).get "tamper").isSome }, "case")
   | head :: rest =>
     let m := kvOf rest
     -- impl answer: `t=<ms> <reply> | <observation>`
@@ -115,6 +117,12 @@ def step (st : St) (line : String) : St × String :=
     let t := ((lw.head?.map (fun w => (w.drop 2).toString)).bind String.toNat?).getD 0
     let reply := " ".intercalate (lw.drop 1)
     if reply = "skip" then (st, "ok") else
+    if st.tamper then
+      -- single-bit mutation of a handshake message in flight: no PASE session may result
+      let s := (kvOf (words obs)).num "s"
+      if obs ≠ "" && s > 0 then (st, "ORA session although a handshake message was mutated in flight")
+      else (st, "ok")
+    else
     let t0 := st.t0.getD t
     let now := t - t0
     let st := { st with t0 := some t0 }
